@@ -21,6 +21,8 @@ import (
 type LoopDir struct {
 	Invariants []string
 	Decreases  string
+	Split      bool     // step obligations per path through the body instead of over the merged state
+	Lemmas     []string // lemma instances made available at the start of every iteration
 	Unroll     int
 	Bounded    bool // unroll bound not implied by code: bounded stand-in
 }
@@ -40,6 +42,9 @@ type Directives struct {
 	Timeout int
 	GuardSliceStores bool // ownership guard: every slice header this function stores into memory is fresh, empty, or an in-place extension of what was there
 	GuardErrors bool // every non-nil error obtained from a callee leads to a non-nil returned error
+	CyclicLemma bool // lemma on a cycle of lemma uses (uses inside the cycle give no facts)
+	Decreases string // lemma: termination measure for self-recursive (inductive) use
+	SpecFrame bool // emit pairwise frame facts for spec applications over slices (window-only dependence)
 	Uninterp bool // spec function: always an uninterpreted function (its Go body is only used when replaying)
 	Unfold  int // spec functions: recursion is inlined up to this depth (then uninterpreted)
 	Raw     []string
@@ -129,6 +134,10 @@ func parseDirectives(cg *ast.CommentGroup) *Directives {
 			d.Opaque = true
 		case "uninterpreted":
 			d.Uninterp = true
+		case "spec-frame":
+			d.SpecFrame = true
+		case "decreases":
+			d.Decreases = strings.TrimSpace(strings.TrimPrefix(strings.TrimSpace(line), "decreases"))
 		case "guard-errors":
 			d.GuardErrors = true
 		case "guard-slice-stores":
@@ -168,6 +177,10 @@ func parseDirectives(cg *ast.CommentGroup) *Directives {
 				ld.Invariants = append(ld.Invariants, rest)
 			case "decreases":
 				ld.Decreases = rest
+			case "lemma":
+				ld.Lemmas = append(ld.Lemmas, rest)
+			case "split":
+				ld.Split = true
 			case "unroll":
 				ld.Unroll, _ = strconv.Atoi(strings.Fields(rest)[0])
 				if strings.Contains(rest, "bounded") {
@@ -274,7 +287,63 @@ func loadProg(repoDir string, patterns []string, overlay map[string][]byte) (*Pr
 		t.Contract = fi
 		fi.Target = t
 	}
+	p.markCyclicLemmas()
 	return p, nil
+}
+
+// markCyclicLemmas finds lemmas that use each other in a cycle of length > 1 (an unsound
+// circular argument unless a common measure is given, which is not supported).
+func (p *Prog) markCyclicLemmas() {
+	graph := map[*FuncInfo][]*FuncInfo{}
+	for _, fi := range p.funcs {
+		if fi.Kind != "lemma" || fi.Decl == nil || fi.Decl.Body == nil {
+			continue
+		}
+		v := p.view(fi.Pkg)
+		ast.Inspect(fi.Decl.Body, func(n ast.Node) bool {
+			call, ok := n.(*ast.CallExpr)
+			if !ok {
+				return true
+			}
+			var id *ast.Ident
+			switch f := call.Fun.(type) {
+			case *ast.Ident:
+				id = f
+			case *ast.SelectorExpr:
+				id = f.Sel
+			}
+			if id == nil {
+				return true
+			}
+			if fn, ok := v.objOf(id).(*types.Func); ok {
+				if g := p.funcs[fn]; g != nil && g.Kind == "lemma" && g != fi {
+					graph[fi] = append(graph[fi], g)
+				}
+			}
+			return true
+		})
+	}
+	var reach func(from, to *FuncInfo, seen map[*FuncInfo]bool) bool
+	reach = func(from, to *FuncInfo, seen map[*FuncInfo]bool) bool {
+		for _, g := range graph[from] {
+			if g == to {
+				return true
+			}
+			if !seen[g] {
+				seen[g] = true
+				if reach(g, to, seen) {
+					return true
+				}
+			}
+		}
+		return false
+	}
+	for fi := range graph {
+		if reach(fi, fi, map[*FuncInfo]bool{}) {
+			fi.Dir.CyclicLemma = true
+			p.errors = append(p.errors, fmt.Sprintf("lemma %s is part of a cycle of lemmas: its uses inside the cycle are ignored", fi.Name))
+		}
+	}
 }
 
 // sigCompatible checks that contract function c binds positionally onto target t:
